@@ -103,6 +103,75 @@ theorem C14_string_foreign_bit (signed : Bool) (t : Table w) (h : WFt signed t =
     rw [hi e (List.mem_filter.mp he).1] at hei
     exact absurd hei (by simp)
 
+/-! ### any table at all: flags that are not single bits, overlapping composites, a declared zero, a
+flag on the sign bit.  No hypothesis on the table. -/
+
+/-- the exact statement of what String() returns, for every table and every value: the declared
+    name; decimal when `x < 0 || x > _max`; else the non-zero declared values PICKED in ascending
+    table order (all bits in `x`, none shared with an earlier pick), joined by ", " when they are at
+    least one and cover `x` exactly; decimal otherwise -/
+theorem C14_string_general (signed : Bool) (t : Table w) (x : BitVec w) :
+    string signed t x = specGeneral signed t x := string_eq_general signed t x
+
+/-- whenever String() prints a joined list, the list is a partition of `x` into declared values:
+    a sub-list of the table (so ascending), every member non-zero and contained in `x`, pairwise
+    without a common bit, together exactly `x` -/
+theorem C14_string_partition (signed : Bool) (t : Table w) (x : BitVec w) (ns : List Name)
+    (h : string signed t x = .joined ns) :
+    ∃ P : Table w, P.Sublist t ∧ P ≠ [] ∧ ns = P.map (·.2) ∧ orAll P = x ∧
+      (∀ e ∈ P, e.1 ≠ 0 ∧ x &&& e.1 = e.1) ∧ P.Pairwise (fun a b => a.1 &&& b.1 = 0#w) := by
+  rw [string_eq_general] at h
+  unfold specGeneral at h
+  cases hf : t.find? (fun e => e.1 = x) with
+  | some e => rw [hf] at h; simp at h
+  | none =>
+    rw [hf] at h
+    simp only [] at h
+    by_cases hout : outside signed (orAll t) x = true
+    · rw [if_pos hout] at h; simp at h
+    · rw [if_neg hout] at h
+      by_cases hc : picks x t 0#w ≠ [] ∧ orAll (picks x t 0#w) = x
+      · rw [if_pos hc] at h
+        have hp := picks_props x t 0#w
+        refine ⟨picks x t 0#w, hp.2.2, hc.1, ?_, hc.2, fun e he => ⟨(hp.1 e he).2.1, (hp.1 e he).2.2.1⟩, hp.2.1⟩
+        injection h with h; exact h.symm
+      · rw [if_neg hc] at h; simp at h
+
+/-- on the tables of the property's grammar the general statement is the property's own one
+    (names of the declared single-bit flags contained in `x`) -/
+theorem C14_general_eq_grammar (signed : Bool) (t : Table w) (h : WFt signed t = true) (x : BitVec w) :
+    specGeneral signed t x = specString signed t x := by
+  rw [← string_eq_general, string_eq_spec h]
+
+/-- a flag on the sign bit of a signed type makes `_max` negative: every value that is not itself
+    declared prints in decimal — no union is ever spelled out -/
+theorem C14_string_signbit (t : Table w) (x : BitVec w) (e : BitVec w × Name) (he : e ∈ t) (hm : e.1.msb = true)
+    (hnd : ∀ g ∈ t, g.1 ≠ x) : string true t x = .dec (decOf true x) := by
+  rw [string_eq_general]
+  unfold specGeneral
+  have hfind : t.find? (fun g => g.1 = x) = none := by
+    rw [List.find?_eq_none]; intro g hg; simpa using hnd g hg
+  rw [hfind]
+  have hmx : (orAll t).msb = true := by
+    rw [orAll_msb, List.any_eq_true]; exact ⟨e, he, hm⟩
+  simp only []
+  rw [if_pos (outside_of_signbit (orAll t) x hmx)]
+
+/-- a declared zero prints its name; zero is never part of a joined list -/
+theorem C14_string_zero (signed : Bool) (t : Table w) (x : BitVec w) (ns : List Name)
+    (h : string signed t x = .joined ns) (n : Name) (hz : ((0 : BitVec w), n) ∈ t)
+    (hnames : (t.map (·.2)).Nodup) : n ∉ ns := by
+  obtain ⟨P, hsub, _, hns, _, hall, _⟩ := C14_string_partition signed t x ns h
+  intro hn
+  rw [hns, List.mem_map] at hn
+  obtain ⟨e, he, hen⟩ := hn
+  have het : e ∈ t := hsub.subset he
+  -- names are distinct, so e is the zero entry, which is never picked
+  have : e = ((0 : BitVec w), n) := by
+    exact inj_of_nodup_names t hnames e het _ hz hen
+  exact (hall e he).1 (by rw [this])
+
+
 end ShootVerif.Enum.Bit
 
 namespace ShootVerif.Enum
@@ -127,6 +196,20 @@ theorem C14_F_undefined_map_witness :
 
 def bitExample : Bit.Table 8 :=
   [(0, ['N']), (1, ['A']), (2, ['B']), (3, ['A', 'B']), (4, ['C'])]
+
+/-- overlapping flags `1, 2, 3, 5, 6` on uint8 (not the grammar): the exact picks; 7 is left with 4 and prints "7" -/
+def overlapExample : Bit.Table 8 := [(1, ['a']), (2, ['b']), (3, ['c']), (5, ['d']), (6, ['e'])]
+
+example : Bit.WFt false overlapExample = false ∧
+    Bit.string false overlapExample 7 = .dec 7 ∧
+    Bit.string false overlapExample 4 = .dec 4 ∧
+    Bit.string false overlapExample 3 = .name ['c'] := by decide
+
+/-- `-128, 1, 2` on int8: a flag on the sign bit; the union 3 prints "3" -/
+def signbitExample : Bit.Table 8 := [(BitVec.ofInt 8 (-128), ['s']), (1, ['a']), (2, ['b'])]
+
+example : Bit.string true signbitExample 3 = .dec 3 ∧ Bit.string true signbitExample (BitVec.ofInt 8 (-127)) = .dec (-127) ∧
+    Bit.string true signbitExample 2 = .name ['b'] := by decide
 
 example : Bit.WFt false bitExample = true ∧
     Bit.string false bitExample 3 = .name ['A', 'B'] ∧
